@@ -141,7 +141,7 @@ def plan(tier, seed):
                 'length <= %d over all 1,114,112 code points. tag dissection / front end + emitters: %d + %d '
                 'enumerated shapes (tag/document skeletons with %s symbolic code point(s) at the gaps), all '
                 'code points per symbolic position; attribute and element *names* are concrete in the '
-                'front-end family (they become dict keys). newline chain: <= %d symbolic characters; every sequence of 3 statement-free documents from a pool of 6 (XML documents differing only in their line endings, HTML documents) compiled through one on-disk module cache renders each as written; a namespace declaration (3 template-language URIs, a foreign one) on an empty element followed by siblings that use the prefix as element / attribute prefix: only the declaration of a language namespace is dropped. '
+                'front-end family (they become dict keys). newline chain: <= %d symbolic characters; every sequence of 3 statement-free documents from a pool of 6 (XML documents differing only in their line endings, HTML documents) compiled through one on-disk module cache renders each as written; a namespace declaration (3 template-language URIs, a foreign one) on an empty element followed by siblings that use the prefix as element / attribute prefix: only the declaration of a language namespace is dropped; 5 documents with data-* attributes that spell no statement (xml, xmlns and declared foreign prefixes) render verbatim with enable_data_attributes on and off. '
                 'Outside: longer symbolic stretches, whole-pipeline compile()+render of a symbolic document, '
                 'element nesting beyond the skeletons.' % (
                     3 if quick else 5, len(tag_jobs), len(doc_jobs), '1' if quick else '1-2',
@@ -155,7 +155,8 @@ def plan(tier, seed):
             'a rejection (TemplateError, undefined namespace prefix, undissectable tag token) is not a C03 '
             'violation: the statement is conditional on the document compiling',
         ],
-        families=fams + [fam_cache, dict(name='empty_tag_namespace_scope', module=H, fn='empty_tag_scope', jobs=[{}],
+        families=fams + [fam_cache, dict(name='foreign_data_attributes_under_option', module=H, fn='data_option_verbatim', jobs=[{}],
+                                       timeout=600, vacuity=1, mutants=[{'name': 'data_conversion_any_bound_prefix', 'cfg': {}}]), dict(name='empty_tag_namespace_scope', module=H, fn='empty_tag_scope', jobs=[{}],
                                        timeout=600, vacuity=1, mutants=[{'name': 'empty_tag_shares_scope', 'cfg': {}}])],
         extra=z_queries,
     )
